@@ -373,4 +373,6 @@ Definition mac_input (key pt : list Z) (s : side) : list Z :=
 (* the 128 middle bits of SHA-256 do not collide on the two given inputs *)
 Definition no_collision (sha256 : list Z -> list Z) (a b : list Z) : Prop :=
   message_key_of_large (sha256 a) = message_key_of_large (sha256 b) -> a = b.
-
+(* an explicit collision of the 128 middle bits of SHA-256: two DIFFERENT inputs with the same msg_key *)
+Definition collision (sha256 : list Z -> list Z) (a b : list Z) : Prop :=
+  a <> b /\ message_key_of_large (sha256 a) = message_key_of_large (sha256 b).
